@@ -21,8 +21,10 @@ def add(crate, name, props, tier="quick", profile="lean", timeout=600, mem_gb=12
 for op, b in [("add", "full 64x64 bit + NaN/+-inf"), ("sub", "full 64x64 bit + NaN/+-inf"),
               ("mul", "full 64x64 bit + NaN/+-inf"), ("cmp", "full 64x64 bit + NaN/+-inf"),
               ("div_special", "all operand classes except finite/non-zero finite"),
-              ("div_d8", "dividend 64 bit; divisor 8 bit (sign-extended) or i64::MIN/MAX")]:
+              ("div_a32_d8", "dividend 32 bit (sign-extended) or i64::MIN/MAX; divisor 8 bit")]:
     add("kernels", "i64_terminal::c10_i64_" + op, ["C10"], profile="full", timeout=900, bounds=b)
+add("kernels", "i64_terminal::c10_i64_div_d8", ["C10"], tier="thorough", profile="full", timeout=3000,
+    bounds="dividend 64 bit; divisor 8 bit (sign-extended) or i64::MIN/MAX")
 add("kernels", "i64_terminal::c10_i64_div_d16", ["C10"], tier="thorough", profile="full", timeout=3000,
     bounds="dividend 64 bit; divisor 16 bit (sign-extended) or i64::MIN/MAX")
 
@@ -30,7 +32,7 @@ add("kernels", "i64_terminal::c10_i64_div_d16", ["C10"], tier="thorough", profil
 BOOL_STEP_PROPS = ["C02", "C01", "C03", "C05", "C06", "C14"]
 BOOL_Q_PROPS = ["C04", "C01", "C03", "C05", "C06", "C14"]
 AQ_QUICK = {"bdd": {"exists_and", "forall_or", "unique_xor", "forall_imp"},
-            "bcdd": {"exists_and", "unique_nand", "forall_equiv"}}
+            "bcdd": set()}
 for kind in ["bdd", "bcdd"]:
     CRATES[kind] = {}
     K = kind.upper()
@@ -40,6 +42,11 @@ for kind in ["bdd", "bcdd"]:
         if op != "not":
             add(kind, "proofs::step_" + op + "_n5", BOOL_STEP_PROPS, tier="thorough", timeout=2400,
                 bounds="one recursion step from an arbitrary well-formed %s: <=5 pre-existing nodes, 6 slots, 3 levels, capacity symbolic" % K)
+    add(kind, "proofs::base_var_eval", ["C02", "C03", "C05", "C14"], timeout=1500,
+        bounds="constants, var, not_var, eval (all variables given), cofactors on an arbitrary well-formed %s with <=3 nodes over 3 levels under an arbitrary variable order" % K)
+    for dn in ["exists_and", "exists_xor", "forall_nand"]:
+        add(kind, "proofs::step_apply_%s_deleg" % dn, ["C04", "C05", "C14", "C06"], timeout=2400, mem_reserve=8,
+            bounds="apply_%s with one constant operand (terminal-case delegation); the delegated quantification is the real top-level step; <=4 pre-existing nodes, 3 levels, symbolic capacity" % dn)
     add(kind, "proofs::lemma_canonical", ["C01"], timeout=1500,
         bounds="every well-formed %s with <=5 nodes over 3 levels; all pairs of edges" % K)
     add(kind, "proofs::step_ite", BOOL_STEP_PROPS, timeout=1800, mem_reserve=8,
@@ -62,7 +69,7 @@ for kind in ["bdd", "bcdd"]:
         for o in ["and", "or", "nand", "nor", "xor", "equiv", "imp", "imp_strict"]:
             nm = q + "_" + o
             add(kind, "proofs::step_apply_" + nm, BOOL_Q_PROPS, tier="quick" if nm in AQ_QUICK[kind] else "thorough", timeout=2400, mem_reserve=12, mem_gb=14,
-                bounds="one recursion step of apply_%s(%s): <=3 pre-existing nodes, 6 slots, 3 levels" % (q, o))
+                bounds="one recursion step of apply_%s(%s): <=%d pre-existing nodes, 6 slots, 3 levels" % (q, o, 3 if kind == "bdd" else 2))
 
 # ---------------------------------------------------------------- ZBDD
 CRATES["zbdd"] = {}
@@ -70,7 +77,8 @@ ZB = "one recursion step from an arbitrary well-formed ZBDD: tautology chain (3 
 for op in ["union", "intsec", "diff"]:
     add("zbdd", "proofs::step_" + op, ["C09", "C01", "C03", "C05", "C06", "C14"], timeout=1500, bounds=ZB)
 for op in ["subset0", "subset1", "change"]:
-    add("zbdd", "proofs::step_" + op, ["C09", "C01", "C03", "C05", "C06", "C14"], timeout=1500, bounds=ZB + "; arbitrary variable order")
+    add("zbdd", "proofs::step_" + op, ["C09", "C01", "C03", "C05", "C06", "C14"], timeout=2400, mem_gb=(22 if op == "change" else 16), mem_reserve=(20 if op == "change" else 12),
+        tier="thorough" if op == "change" else "quick", bounds=ZB + "; arbitrary variable order")
 for op in ["and", "or", "xor", "imp", "imp_strict", "not", "ite"]:
     add("zbdd", "proofs::step_" + op, ["C02", "C09", "C01", "C03", "C05", "C06", "C14"], timeout=1800, bounds=ZB)
 for op in ["union", "intsec", "diff", "xor", "subset0", "subset1", "change"]:
@@ -83,7 +91,8 @@ add("zbdd", "proofs::lemma_canonical", ["C01"], timeout=1500, bounds="every well
 CRATES["mtbdd"] = {}
 MB = "one recursion step from an arbitrary well-formed MTBDD: <=3 pre-existing nodes, 6 slots, 2 levels, terminal table with <=3 symbolic distinct values and symbolic capacity; terminal algebra = 8-bit instance of the I64 algebra (the lifting is independent of the operand width)"
 for op in ["add", "sub", "mul", "div", "min", "max", "ite"]:
-    add("mtbdd", "proofs::step_" + op, ["C10", "C01", "C03", "C05", "C06", "C14"], timeout=1800, bounds=MB.replace("<=3 pre-existing", "<=2 pre-existing"))
+    add("mtbdd", "proofs::step_" + op, ["C10", "C01", "C03", "C05", "C06", "C14"], timeout=3000, tier="quick" if op in ("add", "sub", "max", "ite") else "thorough",
+        bounds=MB.replace("<=3 pre-existing", "<=2 pre-existing"))
     if op != "ite":
         add("mtbdd", "proofs::step_" + op + "_n3", ["C10", "C01", "C03", "C05", "C06", "C14"], tier="thorough", timeout=3600, bounds=MB)
 add("mtbdd", "proofs::base_constant_var", ["C10", "C03", "C05", "C14"], timeout=900, bounds="constant(v) and var(v) on an arbitrary MTBDD with <=2 nodes")
@@ -92,7 +101,8 @@ add("mtbdd", "proofs::base_constant_var", ["C10", "C03", "C05", "C14"], timeout=
 CRATES["tdd"] = {}
 TB = "one recursion step from an arbitrary well-formed TDD: <=3 pre-existing ternary nodes, 6 slots, 2 levels (9 three-valued assignments), capacity symbolic"
 for op in ["and", "or", "nand", "nor", "xor", "equiv", "imp", "imp_strict", "not", "ite"]:
-    add("tdd", "proofs::step_" + op, ["C11", "C01", "C03", "C05", "C06", "C14"], timeout=1800, mem_reserve=6,
+    add("tdd", "proofs::step_" + op, ["C11", "C01", "C03", "C05", "C06", "C14"], timeout=2400, mem_reserve=(14 if op == "ite" else 6), mem_gb=(18 if op == "ite" else 12),
+        tier="quick" if op in ("and", "or", "imp", "equiv", "xor", "not", "ite") else "thorough",
         bounds=TB.replace("<=3 pre-existing", "<=2 pre-existing") if op not in ("not",) else TB)
     if op not in ("not", "ite"):
         add("tdd", "proofs::step_" + op + "_n3", ["C11", "C01", "C03", "C05", "C06", "C14"], tier="thorough", timeout=3000, mem_reserve=8, bounds=TB)
@@ -103,6 +113,7 @@ CRATES["hashtbl"] = {}
 HB = "one operation on an arbitrary 16-slot RawTable<u8,u32> satisfying the representation invariant; key universe 4 keys with arbitrary 64-bit hashes (all collision patterns, wrap-around clusters, any tombstone layout)"
 for hn in ["step_find_get", "step_insert_free5", "step_insert_free12", "step_remove"]:
     add("hashtbl", "proofs::" + hn, ["C17"], profile="full", timeout=2400, bounds=HB)
+add("hashtbl", "proofs::step_retain", ["XRETAIN"], profile="full", timeout=3000, mem_reserve=10, mem_gb=14, bounds=HB + "; retain with an arbitrary predicate incl. the shrink/rehash path")
 
 # ---------------------------------------------------------------- C06 DMApplyCache
 for cap in [1, 2, 4]:
@@ -112,7 +123,7 @@ add("bdd", "cache_proofs::cache_gc_bracket", ["C06"], profile="full", timeout=18
     bounds="real DMApplyCache, capacity 2: add; pre_gc; get/add; post_gc; get/add; clear; get with arbitrary keys")
 
 # ---------------------------------------------------------------- C12 Natural
-for hn, b in [("from_u128_roundtrip", "every u128"), ("from_u64_roundtrip", "every u64"), ("cmp_eq", "every pair of u128"),
+for hn, b in [("from_u128_roundtrip", "every u128"), ("from_u64_roundtrip", "every u64"), ("eq", "every pair of u128"), ("cmp", "m*2^e with 16-bit m, e <= 112"),
               ("shift", "every u128, shift 0..127"), ("exp_overflow", "every non-zero u64, shift by u64::MAX"),
               ("clone_inline", "every pair of u64 (inline representation)")]:
     add("kernels", "natural::c12_natural_" + hn, ["C12"], profile="full", timeout=1800, bounds="Natural: " + b + " (mantissa <= 2 digits)")
@@ -133,6 +144,12 @@ for k in range(5):
     add("reorder", "proofs::sort_order_k%d" % k, ["C08"], profile="full", timeout=1800, mem_reserve=6,
         bounds="real sort_order + MinSegTree: 4 levels, every partial order naming %d distinct levels; minimality against an arbitrary competing permutation" % k)
 add("reorder", "proofs::bubble_sort_4", ["C08"], profile="full", timeout=1800, bounds="real bubble_sort on every permutation of 4 levels")
+
+# ---------------------------------------------------------------- C07 (narrow)
+for kind in ["bdd", "bcdd"]:
+    for hn in ["mt_and", "mt_xor"]:
+        add(kind, "proofs::mt::" + hn, ["C07", "C14", "C05"], timeout=2400, mem_reserve=8,
+            bounds="one recursion step of the multi-threaded algorithm (real ParallelRecursor) over a stub pool: both serialisations of the fork/join, split depth 0..2, <=3 pre-existing nodes, 3 levels, symbolic capacity")
 
 STEP_NOTE = ("trusted: Kani/CBMC; the stub manager KManager (array-backed, implements the documented Manager/LevelView contract) and "
              "the ghost truth tables; sub-calls of the recursion are answered by an oracle apply-cache constrained only by the "
@@ -190,11 +207,63 @@ PROPS = {
         "outside": "retry-after-gc on the real manager; level_swap / ZBDD tautology rebuild (documented to abort on OOM)",
         "assumptions": [],
     },
+    "C07": {
+        "level": "other",
+        "claim": "Narrow claim only: the real multi-threaded apply algorithms (ParallelRecursor) over a stub worker pool whose join runs the two sub-problems sequentially in a solver-chosen order: for both serialisations and every split depth 0..2 the result is the specified function, well-formedness and exact reference counts hold, and a failing branch does not leak its sibling's result. Pre-emptive interleavings, locks, memory orderings and deadlock freedom are NOT decided (Kani has no threads; the real managers cannot be constructed).",
+        "bounds": "one recursion step, <=3 pre-existing nodes, 3 levels, split depth 0..2, both fork/join serialisations", "note": STEP_NOTE,
+        "outside": "real threads: interleavings at lock/atomic granularity, the unique table's level mutexes, cache bucket try-locks, gc running alongside",
+        "explanation": "Solver-decided equivalence of the parallel recursion's two serialisations with the sequential specification; concurrency proper is outside the reach of this technique.",
+        "assumptions": ["WorkerPool::join may run its closures in any order (stub KPool)"],
+    },
+    "C08": {
+        "level": "other",
+        "claim": "Order computation only: the real sort_order (with the real MinSegTree) returns, for every partial order over 4 levels, a permutation that respects the requested relative order and has the minimal number of inversions among all such permutations (checked against an arbitrary competitor permutation); the real bubble_sort performs only adjacent swaps, exactly as many as there are inversions, and ends sorted. The function-preserving level swap itself could not be encoded (see DESIGN.md: level_swap's SmallVec-based loops exhaust 14 GB in symbolic execution); defect F1 in level_swap is documented but not decided by this check.",
+        "bounds": "4 levels; k = 0..4 named levels; every permutation for bubble_sort",
+        "outside": "level_swap / set_var_order on a diagram (function preservation, canonicity after reordering), concurrent_bubble_sort under real threads",
+        "note": "trusted: Kani/CBMC; hook feature verif-hooks of oxidd-reorder re-exports the private functions unchanged",
+        "explanation": "Bounded solver check of the target-order computation; the diagram transformation part of the property is not covered.",
+        "assumptions": [],
+    },
+    "C09": {
+        "claim": "Bounded model checking (SAT) of the real ZBDD rules over the stub manager: union/intsec/diff/subset0/subset1/change/make_node/singleton/empty/base return exactly the families of their documentation (families = 8-bit tables over 3 variables, any variable order for the variable-indexed operations), and the Boolean view (and/or/xor/not/imp/imp_strict/ite, var, t/f) is the same table.",
+        "bounds": "tautology chain (real ZBDDCache code) + <=2 symbolic nodes (thorough 3), 8 slots, 3 levels, symbolic capacity, one recursion step with oracle sub-results", "note": STEP_NOTE,
+        "outside": "nand/nor/equiv as single harnesses (compositions of verified steps; exceed 12 GB), ZBDD restrict, add_vars on the real manager",
+        "assumptions": ["family semantics as bit tables: bit s = set s is a member"],
+    },
+    "C11": {
+        "claim": "Bounded model checking (SAT) of the real TDD rules: every connective and ite is the pointwise lifting of the fixed three-valued tables of the property statement (Kleene and/or/not, Lukasiewicz imp/equiv, derived nand/nor/xor/imp_strict, the stated ite rule) over all 9 three-valued assignments of 2 variables; constants f/t/u at edge and handle level, var and the cofactor order are checked directly.",
+        "bounds": "<=2 pre-existing ternary nodes (thorough 3), 6 slots, 2 levels (9 assignments), symbolic capacity, one recursion step", "note": STEP_NOTE,
+        "outside": "eval_edge (slice-driven loop), more than 2 variables",
+        "assumptions": ["tv_bin / tv_ite in harness/tdd/src/lib.rs are the tables of the property statement"],
+    },
+    "C12": {
+        "level": "other",
+        "claim": "Natural-number type only, and only the operations whose allocation sizes are concrete: From<u64/u128>, conversions to u64/u128, comparison/equality, shifts (exact right shift, NaN on inexact shift and exponent overflow) and inline clone are exact for every 128-bit value (solver-decided against u128 arithmetic). Natural::add, heap clone/clone_from, textual output and sat_count itself are outside (symbolic allocation sizes / hashbrown are not encodable), so the model-counting part of the property is not claimed.",
+        "bounds": "every u64 / u128 value; shift amounts 0..127", "note": "trusted: Kani/CBMC; u128 arithmetic as the oracle",
+        "outside": "Natural::add, clone of multi-digit values, Display/Binary/Octal/Hex, f64 conversion, sat_count_edge and SatCountCache",
+        "explanation": "Solver-decided exactness of the conversion / comparison / shift kernels of the big natural type; the counting recursion and addition are not reachable for the back end.",
+        "assumptions": [],
+    },
+    "C13": {
+        "claim": "Bounded model checking (SAT) of the real pick_cube / pick_cube_dd / pick_cube_dd_set code (whole linear recursion) for BDD, BCDD and ZBDD: nothing / false exactly for the unsatisfiable function; the result is a cube implying the function; forced variables are forced, unforced ones follow the choice vector resp. the literal set, all other variables stay don't-care; the choice function is called at most once per level with a node of that level; pick_cube and pick_cube_dd satisfy the same specification under the same choices.",
+        "bounds": "every well-formed diagram with <=4 nodes (ZBDD: tautology chain + <=3) over 3 levels, every choice vector / literal cube, symbolic capacity", "note": STEP_NOTE,
+        "outside": "pick_cube_uniform (random number generator, statistical bias is not a solver property)",
+        "assumptions": ["cube_spec_ok (semantic walk on truth tables) is the documented behaviour"],
+    },
+    "C17": {
+        "claim": "One-step induction, decided by SAT over the real RawTable<u8,u32>: from an arbitrary 16-slot table satisfying the representation invariant (any tombstone layout, any collision pattern incl. wrap-around, hash = arbitrary 64-bit function of 4 keys), find/get, insertion (without rehash) and removal preserve the invariant, terminate, and change membership exactly as a set.",
+        "bounds": "16 slots (MIN_CAP), key universe of 4 keys, arbitrary hashes; free counter concrete in {5, 12} for insertion", "note": "trusted: Kani/CBMC; hook feature verif-hooks of linear-hashtbl (constructor/observers for the raw representation); the invariant stated in harness/hashtbl/src/proofs.rs",
+        "outside": "reserve_rehash (growth/shrink), retain, drain, clear, clone, iteration; tables larger than 16 slots",
+        "assumptions": ["callers never insert duplicates (contract of insert_in_slot_unchecked)"],
+    },
 }
 
 HOOK_COMMITS = []
 
 NOT_APPLICABLE = {
+    "C07": "Kani/CBMC (the only engine of this technique that reaches Rust) has no threads and the real managers (rayon pool, GC thread, parking_lot locks) cannot be constructed symbolically; interleavings cannot be made solver variables for this code",
+    "C15": "the DDDMP importer/exporter is line-oriented text I/O (format!/parse/from_utf8, Vec<String>, FxHashMap) whose allocation sizes are symbolic; not encodable within reach (the byte-level kernels alone would not decide the round-trip property)",
+    "C16": "VarNameMap is built on std HashMap<Unowned<str>, _>; hashbrown gives no verdict under CBMC, and with a linear-map hook the String/Box<str>/Vec machinery exhausted 10 GB already for operation sequences of length 2 (probe in DESIGN.md); the real managers' add_named_vars scope guard needs the concrete manager",
     "C18": "Circuit::simplify and the nom-based parsers run on FxHashMap/bumpalo/Vec2d and format!-built diagnostics; a hashbrown map alone gave no verdict in 10 min under Kani (DESIGN.md §0), so the code cannot be encoded within reach",
     "C19": "the C API is a cdylib over the concrete index manager (rayon pool + GC thread created at construction: unsupported by Kani); ownership balance is a property of that manager's atomics",
     "C20": "needs both real manager back ends (threads, locks, mmap'ed slabs) executed under the cfg_if instantiations of the oxidd crate; not encodable for a SAT/SMT back end",
@@ -205,9 +274,9 @@ NOT_APPLICABLE = {
 # about (first entry of props) it runs in that property's quick tier; for the other
 # properties only a representative core set runs in the quick tier (all of them in thorough).
 CORE = {
-    "bdd": {"step_and", "step_xor", "step_not", "step_ite", "step_exists", "step_apply_exists_and", "base_pick_cube_dd", "probe_child0_by_ref", "lemma_canonical"},
-    "bcdd": {"step_and", "step_xor", "step_ite", "step_forall", "step_apply_unique_nand", "base_pick_cube_dd_set", "probe_child0_by_ref", "lemma_canonical"},
-    "zbdd": {"step_union", "step_diff", "step_change", "step_not", "probe_child0_by_ref", "lemma_canonical"},
+    "bdd": {"step_and", "step_xor", "step_not", "step_ite", "step_exists", "step_apply_exists_and", "step_apply_exists_and_deleg", "step_apply_exists_xor_deleg", "base_pick_cube_dd", "base_var_eval", "probe_child0_by_ref", "lemma_canonical"},
+    "bcdd": {"step_and", "step_xor", "step_ite", "step_forall", "step_apply_exists_and_deleg", "base_pick_cube_dd_set", "base_var_eval", "probe_child0_by_ref", "lemma_canonical"},
+    "zbdd": {"step_union", "step_diff", "step_subset1", "step_not", "probe_child0_by_ref", "lemma_canonical"},
     "mtbdd": {"step_add", "step_min", "base_constant_var", "probe_child0_by_ref"},
     "tdd": {"step_and", "step_ite", "probe_child0_by_ref"},
 }
